@@ -528,9 +528,23 @@ def run_shard(spec, ctx):
                         judge_values(v, s, ages, "estimate(MultiIndex,to_dataframe=False)")
 
         # ---- (E) compute_individual_trajectory directly ------------------------------------------------------------
-        for sid, ind in by_id.items():
+        for n_dir, (sid, ind) in enumerate(by_id.items()):
+            # the individual's parameters as stored, or in the single-row layouts the tensorised forms use (one row per individual)
+            ipd = ip[sid]
+            layout = ("as-stored", "nested-row-lists", "numpy-rows", "torch-rows")[(case["index"] + n_dir) % 4]
+            if layout != "as-stored":
+                def row(v, _layout=layout):
+                    flat = list(v) if isinstance(v, (list, tuple)) else [v]
+                    if _layout == "nested-row-lists":
+                        return [flat]
+                    if _layout == "numpy-rows":
+                        return np.array([flat], dtype=np.float64)
+                    return torch.tensor([flat], dtype=torch.float32)
+
+                ipd = {k_: row(v_) for k_, v_ in ipd.items()}
+                ctx.count("direct_trajectory_calls_with_row_layouts")
             try:
-                t = model.compute_individual_trajectory(_as_container(ind), ip[sid])
+                t = model.compute_individual_trajectory(_as_container(ind), ipd)
             except Exception as e:
                 ctx.violation(_exc_key("compute_individual_trajectory", case, e), f"compute_individual_trajectory raised {type(e).__name__}: {str(e)[:200]}",
                               brief, id=sid, style=ind["style"], container=ind["container"])
